@@ -213,14 +213,17 @@ func (c15) Eval(c *Chooser, env *Env) *Outcome {
 	cwd := cwds[c.Int("world.cwd", len(cwds))]
 	disk.MkdirAll(cwd)
 	diskU.MkdirAll(cwd)
-	mode := c.Int("world.mode", 4) // 0 files, 1 single file, 2 no arguments (repository of the cwd), 3 files with getwd failing
+	mode := c.Int("world.mode", 6) // 0 files, 1 single file, 2 no arguments (repository of the cwd), 3 files with getwd failing, 4 stdin with -stdin-filename, 5 repository config unreadable
 	inRepo := cwd == root || strings.HasPrefix(cwd, root+"/")
 	if mode == 2 && !inRepo {
 		mode = 0
 	}
 	lintFiles := files
-	if mode == 1 {
+	if mode == 1 || mode == 4 {
 		lintFiles = files[:1]
+	}
+	if mode == 5 && cfg == "" {
+		mode = 0
 	}
 	// files of a second repository (its own config) in the same invocation
 	sibArg := sib != "" && mode == 0 && c.Bool("world.sibarg")
@@ -265,6 +268,19 @@ func (c15) Eval(c *Chooser, env *Env) *Outcome {
 		}
 	}
 	w := &World{Disk: disk, Cwd: cwd, CPUs: []int{2, 1, 4}[c.Int("world.cpus", 3)], API: APIMain, Args: append(append([]string{}, args...), spelled...), Note: "C15 filtered run"}
+	if mode == 4 {
+		// the content arrives on stdin; the file name (any spelling) says where it belongs
+		w.Args = append(append([]string{}, args...), "-stdin-filename", spelled[0], "-")
+		content := disk.Files[lintFiles[0]]
+		if rp, st := disk.Resolve(lintFiles[0], true); st == 0 {
+			content = disk.Files[rp]
+		}
+		w.Stdin = string(content)
+	}
+	if mode == 5 {
+		kind := []string{kern.FReadEIO, kern.FReadEACCES, kern.FReadEISDIR}[c.Int("fault.cfgkind", 3)]
+		w.Faults = append(w.Faults, kern.Fault{Kind: kind, Path: root + "/.github/actionlint.yaml"})
+	}
 	if mode == 3 {
 		w.Faults = []kern.Fault{{Kind: kern.FGetwdErr}}
 		// without a working directory only absolute spellings can be resolved at all
@@ -363,6 +379,16 @@ func (c15) Eval(c *Chooser, env *Env) *Outcome {
 	}
 	if v := runFailure("C15", rf.K); v != nil {
 		o.V = v
+		return o
+	}
+	if mode == 5 {
+		// the repository's configuration exists but cannot be read: which paths entries apply is
+		// unknown, so no filtered list can be exact - the only acceptable outcome is a fatal error
+		o.probe("unreadable_repository_config_runs", 1)
+		if rf.Exit != 3 || strings.TrimSpace(rf.Stderr) == "" {
+			o.V = &Violation{Oracle: "exit-status", Class: "unreadable-config-not-fatal",
+				Message: fmt.Sprintf("the repository's actionlint.yaml exists but cannot be read (%s); exit status %d, stderr %q: the per-path ignore configuration is silently not applied (or another file's is)", w.Faults[len(w.Faults)-1].Kind, rf.Exit, firstLine(rf.Stderr))}
+		}
 		return o
 	}
 	if rf.Exit == 3 || rf.Exit == 2 {
